@@ -953,11 +953,19 @@ def planner(
                 log.info("No range scans allowed %s", query_items)
             continue
 
+        limit = default_limit
+        if not limit:
+            # the limit requested by the client can't exceed Config.max_limit
+            if query.limit is None:
+                limit = Config.max_limit
+            else:
+                limit = min(query.limit, Config.max_limit)
+
         plan = QueryPlan(
             query_items,
             best_index,
             matches,
-            default_limit or query.limit,
+            limit,
             query.since,
             query.until,
             {},
